@@ -101,7 +101,7 @@ Definition step (s : state) (t : nat) (ch : list Z) : option (state * list Z * Z
           else if pos then upd w (goto th (PWaitLoad v 1)) s_wf_load0
           else upd w (next (logr th r_waitfor 0)) s_wf_load0
       | PCdSub n =>
-          if w =? 1 then upd (sub32 w n) (goto th (PNotifyStore 0)) s_cd_sub
+          if w =? wrap_s 32 n then upd (sub32 w n) (goto th (PNotifyStore 0)) s_cd_sub
           else upd (sub32 w n) (next th) s_cd_sub
       | PTwLoad => upd w (next (logr th r_trywait (b2z (w =? 0)))) s_tw_load
       | PArrSub =>
